@@ -1713,6 +1713,18 @@ pub fn gen_module(rng: &mut Rng, cfg: &GenCfg) -> Generated {
         if anyl {
             names.locals(&im);
         }
+        // subsections walrus does not keep (labels here, fields and tags behind the
+        // data names): it skips them with a warning and must go on reading what follows. Decided
+        // from counts already drawn, so the rest of the generated module is what it was before.
+        let extra_subsections = only.is_none() && (types.len() + ctx.globals.len() + 2 * n_data as usize + n_elem as usize) % 4 == 1;
+        if extra_subsections {
+            let mut lm = IndirectNameMap::new();
+            let mut nm = NameMap::new();
+            nm.append(0, "label0");
+            nm.append(1, "label1");
+            lm.append(n_imported_funcs as u32, &nm);
+            names.labels(&lm);
+        }
         macro_rules! simple {
             ($n:expr, $m:ident, $k:expr) => {{
                 let mut nm = NameMap::new();
@@ -1734,6 +1746,16 @@ pub fn gen_module(rng: &mut Rng, cfg: &GenCfg) -> Generated {
         simple!(ctx.globals.len(), globals, 6);
         simple!(n_elem, elements, 7);
         simple!(n_data, data, 8);
+        if extra_subsections {
+            let mut fm = IndirectNameMap::new();
+            let mut nm = NameMap::new();
+            nm.append(0, "field0");
+            fm.append(0, &nm);
+            names.fields(&fm);
+            let mut tm = NameMap::new();
+            tm.append(0, "tag0");
+            names.tags(&tm);
+        }
         module.section(&names);
         custom(&mut module, rng);
         // a second name section now and then (valid; walrus applies every one of them, in order):
